@@ -922,19 +922,25 @@ def mon_C14(script, outs):
         prev_co = co
     if fam == "step" and not fails:
         fs, tt, lo, hi = script.meta["fs"], script.meta["t"], script.meta["lo"], script.meta["hi"]
-        ys = [y for (_i, t, _c, y) in glide_rows(script, outs) if t[0] == "proc"]
-        cos = [c for (_i, t, c, _y) in glide_rows(script, outs) if t[0] == "proc"]
-        if len(ys) > 3 and tt * fs >= 100:
-            r = rho(cos[-1][0]) * max(abs(lo), abs(hi)) / abs(hi - lo)
+        rows = list(glide_rows(script, outs))
+        k0 = [k for k, (_i, t, _c, _y) in enumerate(rows) if t[0] == "time"]
+        # the step scripts have the shape: new; proc lo ...; time t; proc hi ...  (anything else, e.g. a
+        # shrunk script, is not a step experiment)
+        shape_ok = len(k0) == 1 and k0[0] >= 10 and all(t[0] == "proc" and unhx(t[1]) == f32(lo) for (_i, t, _c, _y) in rows[1:k0[0]]) \
+            and all(t[0] == "proc" and unhx(t[1]) == f32(hi) for (_i, t, _c, _y) in rows[k0[0] + 1:])
+        if shape_ok and tt * fs >= 100 and abs(rows[k0[0] - 1][3] - f32(lo)) <= 1e-6 * max(1.0, abs(lo)):
+            after = rows[k0[0] + 1:]
+            ys = [y for (_i, _t, _c, y) in after]
+            r = rho(after[-1][2][0]) * max(abs(lo), abs(hi)) / abs(hi - lo) if after else 0.0
             n = int(math.ceil(tt * fs))
             n10 = int(math.ceil(tt * fs / 10.0))
-            # ys[3] is the first output after the step
+
             def cov(k):
-                return (ys[3 + k - 1] - lo) / (hi - lo)
-            if 3 + n - 1 < len(ys) and cov(n) < 0.995 - r:
-                fails.append((3 + n + 1, "after t = %r s (%d samples) only %.4f of the step is covered" % (tt, n, cov(n))))
-            if 3 + n10 - 1 < len(ys) and not (0.40 - r <= cov(n10) <= 0.55 + r):
-                fails.append((3 + n10 + 1, "after t/10 (%d samples) %.4f of the step is covered, not 40%%..55%%" % (n10, cov(n10))))
+                return (ys[k - 1] - lo) / (hi - lo)
+            if n - 1 < len(ys) and cov(n) < 0.995 - r:
+                fails.append((after[n - 1][0], "after t = %r s (%d samples) only %.4f of the step is covered" % (tt, n, cov(n))))
+            if n10 - 1 < len(ys) and not (0.40 - r <= cov(n10) <= 0.55 + r):
+                fails.append((after[n10 - 1][0], "after t/10 (%d samples) %.4f of the step is covered, not 40%%..55%%" % (n10, cov(n10))))
     if fam == "switch" and not fails:
         # after switching to a time shorter than two samples the output settles within 8 samples
         rows = list(glide_rows(script, outs))
